@@ -46,3 +46,55 @@ func VerifC39RoundTrip() {
 	}
 }
 
+
+var verifC39Lens = [7]int{1, 127, 128, 129, 255, 256, 257}
+
+// VerifC39LengthBoundary: the same round trip where one present sub-chunk (any of the five) has a length on a
+// uvarint length-prefix boundary (127/128/129, 255/256/257) and the other present ones are 2 bytes long; first and
+// last byte of every sub-chunk are symbolic, the filler is fixed.
+func VerifC39LengthBoundary() {
+	hot := verifIntRange("hot", 0, 4)
+	hotLen := verifC39Lens[verifIntRange("lenIdx", 0, verifParam("LI", 6))]
+	var chks [5]chunkenc.Chunk
+	var data [5][]byte
+	for i := 0; i < 5; i++ {
+		if i == hot || verifIntRange(verifName("present", i), 0, 1) == 1 {
+			n := 2
+			if i == hot {
+				n = hotLen
+			}
+			b := make([]byte, n)
+			for j := range b {
+				b[j] = byte(0x40 + i)
+			}
+			b[0] = verifByte(verifName("first", i))
+			b[n-1] = verifByte(verifName("last", i))
+			c, err := chunkenc.FromData(chunkenc.EncXOR, b)
+			verifAssume(err == nil)
+			chks[i] = c
+			data[i] = b
+		}
+	}
+	enc := EncodeAggrChunk(chks)
+	for i := 0; i < 5; i++ {
+		got, err := enc.Get(AggrType(i))
+		if chks[i] == nil {
+			verifAssert(err == ErrAggrNotExist, "absent-reported-not-exist")
+			verifReach("absent-checked")
+			continue
+		}
+		verifAssert(err == nil, "present-no-error")
+		if err != nil {
+			continue
+		}
+		verifAssert(got.Encoding() == chunkenc.EncXOR, "encoding-preserved")
+		gb := got.Bytes()
+		verifAssert(len(gb) == len(data[i]), "length-preserved")
+		if len(gb) == len(data[i]) {
+			for j := range gb {
+				verifAssert(gb[j] == data[i][j], "bytes-preserved")
+			}
+		}
+		verifReach("present-checked")
+	}
+}
